@@ -146,10 +146,16 @@ def one_run(ctx, drv, rng):
     tps = rng.choice([1, 2, 4, 8, 16])
     poll = rng.choice([F(1, 4), F(1, 2), F(1), F(2), F(5)])
     multi = rng.random() < 0.5
-    peer = Peer(rng, rng.choice([0.0, 0.5]), multi)
+    sus_prob = rng.choice([0.0, 0.5])
+    heavy = rng.random() < 0.35
+    if heavy:
+        # directed: the peer is called every tick and suspends whatever is suspendable (multi-operator containers at an operator boundary),
+        # on pool 0 as well as on the others
+        multi, sus_prob, poll = True, 0.9, F(1, tps)
+    peer = Peer(rng, sus_prob, multi)
     srv = serve(peer)
     params = {"duration": rng.choice([20, 40]), "ticks_per_second": tps, "waiting_seconds_mean": rng.choice([0.5, 2.0, 6.0]),
-              "num_pipelines": rng.randint(1, 3), "num_operators": rng.choice([2, 4]), "num_pools": rng.choice([1, 2, 3]), "cpus_per_pool": 8,
+              "num_pipelines": rng.randint(1, 3), "num_operators": 4 if heavy else rng.choice([2, 4]), "num_pools": rng.choice([1, 2, 3]), "cpus_per_pool": 8,
               "ram_gb_per_pool": rng.choice([64, 128, 256]), "multi_operator_containers": multi, "random_seed": rng.randint(0, 10 ** 6),
               "rest_scheduler_addr": f"127.0.0.1:{srv.server_port}", "rest_poll_interval": float(poll)}
     # give the peer a handle on the real executor (created inside run_simulator)
@@ -233,6 +239,11 @@ def one_run(ctx, drv, rng):
         return viol(ctx, "transparency", f"HTTP-driven run and in-process replay of the same decisions differ: {stats.to_dict()} vs {stats2.to_dict()}", case)
     nsus = sum(len(r["suspensions"]) for _, r, _ in peer.calls)
     ctx.sit("suspensions_issued_by_peer", nsus)
+    ctx.sit("suspensions_issued_on_pool_0", sum(1 for _, r, _ in peer.calls for x in r["suspensions"] if x["pool_id"] == 0))
+    # executed exactly as given: every suspension the peer issued must have reached the executor
+    nexec = sum(len(e["sus"]) for e in rec.exec[:n])      # [:n]: the in-process replay above appended its own ticks to the recorder
+    if nexec != nsus:
+        return viol(ctx, "transparency", f"the peer issued {nsus} suspensions, the executor received {nexec}", case)
     ctx.sit("containers_mixing_two_pipelines", getattr(peer, "mixed", 0))
     ctx.sit("assignments_issued_by_peer", sum(len(r["assignments"]) for _, r, _ in peer.calls))
     ctx.sit("pipelines_reported_complete", sum(1 for c in got for _, f in c["other"] if f))
